@@ -1,7 +1,7 @@
 \* negative control: should_sign without the subject-key comparison
 SPECIFICATION MCSpec
-CONSTANTS AlreadyChecked = TRUE PkPerAuthority = TRUE CheckSubject = FALSE CheckPermission = TRUE Window = 300 RespCap = 10 FitAll = 8
+CONSTANTS AlreadyChecked = TRUE PkPerAuthority = TRUE CheckSubject = FALSE CheckPermission = TRUE CommitBeforeSend = TRUE Window = 300 RespCap = 10 FitAll = 8
   Regs = {1, 2} Senders = {1, 2} TokIdx = {4} MdIdx = {2, 6, 7, 11} AttIdx = {1} MissIdx = {1}
-  Ticks = {} OwnerPeers = {} KnownVals = {} AttSend = {} RegFirst = TRUE
-  MaxReg = 2 MaxMsg = 2 MaxTick = 0 MaxOwn = 0
+  Ticks = {} OwnerPeers = {} KnownVals = {} AttSend = {} RegFirst = TRUE FaultTabs = {}
+  MaxReg = 2 MaxMsg = 2 MaxTick = 0 MaxOwn = 0 MaxFault = 0
 INVARIANT SignsOnlyConsented
